@@ -106,6 +106,9 @@ func (n *GeneratorInterceptor) BindRemoteStream(
 	receiveLog, _ := newReceiveLog(n.size)
 	n.receiveLogsMu.Lock()
 	n.receiveLogs[info.SSRC] = receiveLog
+	// a stream bound again without UnbindRemoteStream starts with a fresh log:
+	// the NACK counts of the replaced log must not be inherited.
+	delete(n.nackCountLogs, info.SSRC)
 	n.receiveLogsMu.Unlock()
 
 	return interceptor.RTPReaderFunc(func(b []byte, a interceptor.Attributes) (int, interceptor.Attributes, error) {
